@@ -197,6 +197,12 @@ func (p *pwPath) constOfD(v ssa.Value, d int) (constant.Value, bool) {
 	}
 	switch x := v.(type) {
 	case *ssa.BinOp:
+		if x.Op == token.EQL || x.Op == token.NEQ {
+			// nil compared with nil (e.g. an error variable that still holds its zero value on this path)
+			if isNilConst(p.resolve(x.X)) && isNilConst(p.resolve(x.Y)) {
+				return constant.MakeBool(x.Op == token.EQL), true
+			}
+		}
 		a, ok1 := p.constOfD(x.X, d+1)
 		b, ok2 := p.constOfD(x.Y, d+1)
 		if !ok1 || !ok2 || a.Kind() != b.Kind() {
